@@ -805,6 +805,11 @@ func (c *Context) Ln(d, x *Decimal) (Condition, error) {
 
 			ed.Add(&tmp1, &tmp1, &tmp4)
 
+			// Once ed holds an error every step above is skipped and tmp4
+			// stays 2n+1, so the convergence test below could never succeed.
+			if err := ed.Err(); err != nil {
+				return 0, err
+			}
 			if tmp4.Abs(&tmp4).Cmp(&eps) <= 0 {
 				break
 			}
